@@ -3,8 +3,6 @@ import Fv.Lemmas.CacheConc
 by the sequential "register that may forget" specification and replays to the current map. -/
 namespace Fv.Cache.Conc
 
-def emptyReg : Reg := fun _ => none
-
 structure InvR (s : State) : Prop where
   ok : histOk emptyReg s.hist = true
   reg : regOf emptyReg s.hist = vals s.map
